@@ -124,10 +124,14 @@ func (rl *ruleLoader) objectEndAfterRuleName(lex lexeme.LexEvent) {
 }
 
 func (rl *ruleLoader) ruleValueBegin(lex lexeme.LexEvent) {
-	if lex.Type() != lexeme.ObjectValueBegin {
+	switch lex.Type() {
+	case lexeme.NewLine:
+		// A multi-line annotation may break the line around the colon of a rule.
+	case lexeme.ObjectValueBegin:
+		rl.stateFunc = rl.ruleValue
+	default:
 		panic(errs.ErrLoader.F())
 	}
-	rl.stateFunc = rl.ruleValue
 }
 
 func (rl *ruleLoader) ruleValue(lex lexeme.LexEvent) {
